@@ -181,6 +181,30 @@ def run(chk):
         elif v0.shape != v1.shape or np.abs(v0 - v1).max() > 2e3 * eps:
             chk.fail("not-translation-covariant", f"{driver}: shifting the time origin by {tau} changes the results by {np.abs(v0 - v1).max():.2e}", info)
 
+    # ---- (c2) the LENGTH of what is computed does not depend on the origin: for many shifts (a 0.01 grid between -3 and 3, and
+    # large ones) the process tensor for [s, s + N dt] has N steps and Tempo / MeanFieldTempo return N + 1 times, with the end time
+    # computed in the frame of the run (a grid point up to rounding) --------------------------------------------------------
+    from harness.c13 import pt_len, tempo_times, mf_times
+    for it in range(90 if thorough else 36):
+        dt = rng.choice([0.1, 0.05, 0.2])
+        N = rng.choice([3, 7, 10])
+        tau = rng.choice([rng.randint(-300, 300) / 100.0, rng.randint(-300, 300) / 100.0, rng.choice([31.7, -250.3, 1999.9])])
+        s0 = rng.choice([0.0, 0.4]) + tau
+        end = s0 + N * dt
+        which = ["pttempo", "pttempo", "tempo", "meanfield"][it % 4]
+        info = {"kind": "length", "driver": which, "dt": dt, "N": N, "start": s0, "end": repr(end)}
+        chk.search_cases += 1
+        chk.count("length_" + which)
+        chk.case(info, ("length", which, dt, N, round(s0, 2)))
+        try:
+            got = quiet(pt_len, s0, end, dt) if which == "pttempo" else len(quiet(tempo_times if which == "tempo" else mf_times, s0, end, dt)) - 1
+        except Exception as ex:
+            chk.fail("shift-raises", f"{which} raises {ex!r}", info)
+            continue
+        if got != N:
+            chk.fail("times-not-shifted", f"{which} from {s0!r} to start + {N} dt = {end!r} (dt = {dt}): {got} steps instead of {N}: the number of steps depends on "
+                     "where the time origin is", info)
+
     # ---- (d) guessed parameters (parameters=None): the guess made for a shifted problem is the guess for the original one,
     # so the convenience drivers are covariant as well (a chirped drive: the frequencies seen depend on where one looks) -------
     for it in range(4 if thorough else 2):
